@@ -30,7 +30,7 @@ MAX_REPORTS = 4
 
 TIERS = {
     "quick": {"H": 150, "F": 90, "T": 420, "S": 48},
-    "thorough": {"H": 24000, "F": 9000, "T": 100000, "S": 3000},
+    "thorough": {"H": 24000, "F": 9000, "T": 100000, "S": 1500},
 }
 INJECT_W = streams.INJECT_KINDS_WRITE
 INJECT_R = streams.INJECT_KINDS_READ
@@ -824,7 +824,7 @@ def run_task(task: dict) -> dict:
             op_b = [op_a[0] if rng.random() < 0.6 else rng.choice(("enc", "dec")), 0, ii_b, 1]
             programs = [[op_a], [op_b]]
             n_a = forkrun.run(_dryrun_child, wl.to_json(), wl.gold, [[op_a]])
-            cap = 200 if task.get("tier", "quick") == "quick" else 2500
+            cap = 200 if task.get("tier", "quick") == "quick" else 1500
             js = _indices(rng, n_a, cap)
             found = None
             for j in js:
